@@ -2,10 +2,12 @@
 package dec
 
 import (
+	"context"
 	stdjson "encoding/json"
 	"fmt"
 	"io"
 	"reflect"
+	"strings"
 
 	gojson "github.com/goccy/go-json"
 
@@ -27,6 +29,11 @@ func Differs(doc string, proto interface{}) (bool, string) {
 	return d, fmt.Sprintf("encoding/json: %+v err=%v | go-json: %+v err=%v panic=%v", a.Elem().Interface(), werr, b.Elem().Interface(), gerr, pv)
 }
 
+type embCase struct {
+	Ab bool
+	a  bool //nolint
+}
+
 type oneByteReader struct {
 	b []byte
 	i int
@@ -42,6 +49,86 @@ func (r *oneByteReader) Read(p []byte) (int, error) {
 }
 
 func init() {
+	known.DecWitnesses["FX-DEC-key-lone-surrogate"] = func() (bool, string) {
+		doc := `{"a":null,"` + "\\" + `ud800":null,"A":2}`
+		type T struct{ A int }
+		d1, m1 := Differs(doc, T{})
+		var v T
+		err := gojson.NewDecoder(strings.NewReader(doc)).Decode(&v)
+		return d1 || err != nil || v.A != 2, fmt.Sprintf("%s ; stream err=%v v=%+v", m1, err, v)
+	}
+	known.DecWitnesses["FX-DEC-key-simple-escape-skips-char"] = func() (bool, string) {
+		doc := `{"` + "\\" + `"":null,"A":1}`
+		type T struct{ A int }
+		d1, m1 := Differs(doc, T{})
+		var v T
+		err := gojson.NewDecoder(strings.NewReader(doc)).Decode(&v)
+		return d1 || err != nil || v.A != 1, fmt.Sprintf("%s ; stream err=%v v=%+v", m1, err, v)
+	}
+	known.DecWitnesses[known.DecCaseFoldKey] = func() (bool, string) {
+		return Differs(`{"AB":true}`, struct {
+			E0 struct {
+				Ab bool
+				A  bool `json:"-"`
+			} `json:"e"`
+			embCase
+		}{})
+	}
+	known.DecWitnesses["FX-DEC-bool-into-textunmarshaler"] = func() (bool, string) { return Differs(`false`, gen.RecUT{}) }
+	known.DecWitnesses["FX-DEC-wrapped-string-trailing"] = func() (bool, string) {
+		d1, m1 := Differs(`{"1.0":null}`, map[int]bool{})
+		d2, m2 := Differs(`{"I":"1x"}`, struct {
+			I int `json:",string"`
+		}{})
+		return d1 || d2, m1 + " ; " + m2
+	}
+	known.DecWitnesses["FX-DEC-escaped-key-prefix-match"] = func() (bool, string) {
+		return Differs(`{"`+"\\"+`u0061":true}`, gen.EmbC{})
+	}
+	known.DecWitnesses["FX-DEC-array-tail-zero-fill"] = func() (bool, string) {
+		type S struct {
+			A [4]uint8
+			B uint64
+			C [2]string
+		}
+		mk := func() *S { return &S{A: [4]uint8{1, 2, 3, 4}, B: 0xffffffffffffffff, C: [2]string{"x", "y"}} }
+		a, b := mk(), mk()
+		doc := []byte(`{"A":[9],"C":["z"]}`)
+		e1 := stdjson.Unmarshal(doc, a)
+		e2 := gojson.Unmarshal(doc, b)
+		return e1 != nil || e2 != nil || !reflect.DeepEqual(a, b), fmt.Sprintf("std=%+v go=%+v", a, b)
+	}
+	known.DecWitnesses["FX-DEC-float32-overflow"] = func() (bool, string) { return Differs(`[3.5e38,1e39,-1e39]`, []float32{}) }
+	known.DecWitnesses["FX-DEC-null-into-textunmarshaler"] = func() (bool, string) {
+		k := gen.KeyMT{K: 7}
+		err := gojson.Unmarshal([]byte("null"), &k)
+		return err != nil || k.K != 7, fmt.Sprintf("err=%v k=%+v", err, k)
+	}
+	known.DecWitnesses["FX-DEC-null-into-bytes"] = func() (bool, string) {
+		b := []byte("old")
+		err := gojson.Unmarshal([]byte("null"), &b)
+		type S struct{ B []byte }
+		s := S{B: []byte("old")}
+		err2 := gojson.NewDecoder(strings.NewReader(`{"B":null}`)).Decode(&s)
+		return err != nil || err2 != nil || b != nil || s.B != nil, fmt.Sprintf("err=%v b=%v err2=%v s.B=%v", err, b, err2, s.B)
+	}
+	known.DecWitnesses["FX-DEC-context-plain-unmarshaler-panic"] = func() (bool, string) {
+		var r stdjson.RawMessage
+		var err error
+		pv := rt.Guard(func() { err = gojson.UnmarshalContext(context.Background(), []byte(`{"a":1}`), &r) })
+		return pv != nil || err != nil || string(r) != `{"a":1}`, fmt.Sprintf("panic=%v err=%v r=%s", pv, err, r)
+	}
+	known.DecWitnesses["FX-DEC-int-overflow-bare-minus"] = func() (bool, string) {
+		d1, m1 := Differs(`9223372036854775808`, int64(0))
+		d2, m2 := Differs(`18446744073709551616`, uint64(0))
+		d3, m3 := Differs(`[-]`, []int{})
+		return d1 || d2 || d3, m1 + " ; " + m2 + " ; " + m3
+	}
+	known.DecWitnesses["FX-STREAM-int-fraction"] = func() (bool, string) {
+		var v int
+		err := gojson.NewDecoder(jsongen.NewChunkReader([]byte("1.5"), []int{1, 2})).Decode(&v)
+		return err == nil, fmt.Sprintf("err=%v v=%d", err, v)
+	}
 	known.DecWitnesses["FX-STREAM-zero-length-read"] = func() (bool, string) {
 		doc := []byte(`[[10,"o` + "\\" + `u003euca"]]`)
 		var v []gen.RoundMJ
